@@ -1,13 +1,14 @@
 #!/bin/bash
 # tools/trymutant.sh <patch-file> [tier] [checks...]
-# Applies a seeded change to /repo, runs the given checks (default: all 20, quick), prints one
+# Applies a seeded change to /repo (or $REPO_DIR, with $VERIF_DIR a tools/lab.sh copy), runs the given checks (default: all 20, quick), prints one
 # line per check (DETECTED / silent / broken) and ALWAYS restores /repo afterwards.
 set -u
 PATCH=$(readlink -f "$1"); TIER=${2:-quick}; shift; shift || true
 CHECKS=${*:-C01 C02 C03 C04 C05 C06 C07 C08 C09 C10 C11 C12 C13 C14 C15 C16 C17 C18 C19 C20}
-cd /repo || exit 2
+REPO=${REPO_DIR:-/repo}
+cd $REPO || exit 2
 if [ -n "$(git status --porcelain)" ]; then echo "/repo is dirty; refusing"; exit 2; fi
-restore() { git -C /repo checkout -q -- . ; git -C /repo clean -fdq; }
+restore() { git -C $REPO checkout -q -- . ; git -C $REPO clean -fdq; }
 trap restore EXIT
 git apply "$PATCH" || { echo "patch does not apply"; exit 2; }
 cd "${VERIF_DIR:-/verif}"
